@@ -129,6 +129,8 @@ def differential_case(ck, builds, idx, cls, tier):
     orders = set()
     overlap_dp = overlap_km = 0
     for vname, nt, env, ts in variants:
+        if vname not in builds:
+            continue
         paths = builds[vname]
         r, data, lr = one_run(ck, paths, f, word, nt, env, taskset=ts, pen=pen)
         c2 = dict(ctx, nthreads=nt, variant=vname, env=env, taskset=ts)
@@ -263,9 +265,23 @@ def tsan_case(ck, tpaths, idx, cls):
     ck.evaluated(("tsan", idx, cls, nt))
 
 
+def _builds(ck):
+    """gcc variants are required; when only the clang variants fail to build (clang 14 crashes on some OpenMP constructs gcc accepts) the gcc
+    differential still runs, what it observes counts, and the run as a whole is at best inconclusive because the TSan / libomp stages are missing"""
+    from vf.build import BuildError
+    builds = {v: build(v) for v in ("rel", "noomp", "asan")}
+    tpaths = None
+    try:
+        builds["clangomp"] = build("clangomp")
+        tpaths = build("tsan")
+    except BuildError as ex:
+        print("C02: clang build of /repo failed, continuing with the gcc builds only: %s" % str(ex)[-600:])
+        ck.note_inconclusive("clang variants (libomp differential, ThreadSanitizer) could not be built")
+    return builds, tpaths
+
+
 def run(ck, tier):
-    builds = {v: build(v) for v in ("rel", "noomp", "clangomp", "asan")}
-    tpaths = build("tsan")
+    builds, tpaths = _builds(ck)
     if not os.path.exists(ARCHER):
         raise common.Inconclusive("libarcher.so missing")
     sc = getattr(ck, "scale", 1.0)
@@ -280,7 +296,8 @@ def run(ck, tier):
     jobs = list(enumerate(plan))
     common.pmap(lambda j: differential_case(ck, builds, j[0], j[1], tier), jobs, workers=6)
     tcls = ["kmeans", "kmeans_dups", "wide", "long", "mixed", "equal_len", "many_long", "ties"]
-    common.pmap(lambda i: tsan_case(ck, tpaths, 5000 + i, tcls[i % 8]), range(int(ntsan * max(1.0, sc))), workers=6)
+    if tpaths is not None:
+        common.pmap(lambda i: tsan_case(ck, tpaths, 5000 + i, tcls[i % 8]), range(int(ntsan * max(1.0, sc))), workers=6)
     ck.rule = ("inputs reaching every parallel region (>= 100 sequences: distance matrix omp-for and k-means restart tasks; duplicates: k-means tie fallback; wide "
                "trees: tree-parallel merges; >= 500 columns: Hirschberg halves as tasks); each is run at 1 thread and then at thread counts from "
                "{2,3,4,7,8,16,32,64} x repeats with seeded injected delays, affinity masks of 1/2/16 cores and nested parallelism on/off, in the no-OpenMP, "
@@ -295,7 +312,7 @@ def replay(ck, doc):
     if rp.get("variant") == "tsan":
         tsan_case(ck, build("tsan"), rp["idx"], rp["class"])
     else:
-        builds = {v: build(v) for v in ("rel", "noomp", "clangomp", "asan")}
+        builds, _ = _builds(ck)
         differential_case(ck, builds, rp["idx"], rp["class"], doc.get("tier", "quick"))
     with ck.lock:
         ck.nontrivial |= set(range(30))
